@@ -375,8 +375,8 @@ fn main() {
   anchors.push(Civil { y: 9999, mo: 12, d: 31, h: 23, mi: 59, s: 60 });
   anchors.push(Civil { y: 0, mo: 1, d: 1, h: 0, mi: 0, s: 60 });
 
-  let fracs_quick = ["", "0", "999", "123456789"];
-  let fracs_thorough = ["", "0", "9", "50", "999", "0001", "99999", "000000", "9999999", "12345678", "999999999"];
+  let fracs_quick = ["", "0", "999", "123456789", "999999999", "99999999", "9999999999"];
+  let fracs_thorough = ["", "0", "9", "50", "999", "0001", "99999", "000000", "9999999", "12345678", "99999999", "999999999", "9999999999", "999999999999", "999999998", "000000001"];
   let fracs: &[&str] = if thorough { &fracs_thorough } else { &fracs_quick };
   let mut idx: u64 = 0;
   for c in &anchors {
